@@ -387,6 +387,34 @@ func (w *c06World) payoutCandidates(chain, a string) map[string]bool {
 	return out
 }
 
+// the list holds a name that differs from s only in letter case, but not s itself (chain names are exact)
+func c06HasCaseSibling(l []string, s string) bool {
+	if c06Contains(l, s) {
+		return false
+	}
+	for _, x := range l {
+		if strings.EqualFold(x, s) {
+			return true
+		}
+	}
+	return false
+}
+
+// some relayer registered an address folding to a, but only under a case sibling of the chain name
+func (w *c06World) payoutOnlyUnderSibling(chain, a string) bool {
+	if len(w.payoutCandidates(chain, a)) > 0 {
+		return false
+	}
+	for _, g := range w.lastReg {
+		for i, c := range g.chains {
+			if c != chain && strings.EqualFold(c, chain) && i < len(g.addrs) && strings.EqualFold(g.addrs[i], a) {
+				return true
+			}
+		}
+	}
+	return false
+}
+
 func c06Contains(l []string, s string) bool {
 	for _, x := range l {
 		if x == s {
@@ -559,6 +587,12 @@ func (w *c06World) apply1(r *Rec, f []string) string {
 			return "none"
 		}
 		r.Count("q")
+		if c06HasCaseSibling(lr.chains, s(1)) {
+			r.Count("q.case-sibling-chain")
+		}
+		if w.payoutOnlyUnderSibling(s(1), s(3)) {
+			r.Count("q.case-sibling-payout")
+		}
 		if tf {
 			r.Count("q.tele.found")
 		}
@@ -716,6 +750,17 @@ func (w *c06World) applyMsg(r *Rec, f []string) string {
 	tag := kind + "."
 	lr, registered := w.lastReg[raw]
 	regForChain := registered && c06Contains(lr.chains, chain)
+	if kind != "ack" && c06HasCaseSibling(lr.chains, chain) {
+		// the signer is registered for a name that differs from this chain's only in letter case: a different chain
+		r.Count("msg.case-sibling-chain.attempted")
+		r.Count(kind + ".case-sibling-chain.attempted")
+		if hasClient {
+			r.Count("msg.case-sibling-chain.attempted.client-exists")
+		}
+	}
+	if kind == "ack" && src == T.ChainID && w.payoutOnlyUnderSibling(dst, s(9)) {
+		r.Count("ack.case-sibling-payout.attempted")
+	}
 	if isTss && kind != "upd" {
 		// what the message itself carries as proof (irrelevant for a TSS client: the signer is the proof) x who signs
 		pk := "other-bytes"
